@@ -181,7 +181,7 @@ def check_props(prop_id):
         info["wall_s"] = time.time() - t0
         return info
     # generated tables this property's theorems are stated over: the translator must have succeeded on the CURRENT source (fail-closed)
-    needs = {"C20": ["cli"], "C04": ["dissim"], "C05": ["const"], "C07": ["const"], "C19": ["const"]}.get(prop_id, [])
+    needs = {"C20": ["cli"], "C04": ["dissim"], "C05": ["const", "gamma"], "C12": ["gamma"], "C07": ["const", "kernel"], "C03": ["kernel"], "C13": ["cont"], "C19": ["const"]}.get(prop_id, [])
     st = os.path.join(COQ, "gen", "STATUS")
     lines = dict(l.strip().split(" ", 1) for l in open(st) if " " in l.strip()) if os.path.exists(st) else {}
     for g in needs:
@@ -195,7 +195,8 @@ def check_props(prop_id):
         return info
     text = open(src).read()
     info["theorems"] = re.findall(r"^\s*(?:Theorem|Corollary)\s+([A-Za-z0-9_']+)", text, re.M)
-    extras = {"C04": ["genprops/DissimGen.v"]}.get(prop_id, [])     # regenerated definitions compiled with (and only with) this property
+    extras = {"C04": ["genprops/DissimGen.v"], "C05": ["genprops/GammaGen.v"], "C12": ["genprops/GammaGen.v"],
+              "C07": ["genprops/KernelGen.v"], "C03": ["genprops/KernelGen.v"], "C13": ["genprops/ContGen.v"]}.get(prop_id, [])     # regenerated definitions compiled with (and only with) this property
     info["generated"] = extras
     with tempfile.TemporaryDirectory(prefix="pgaverif_") as d:
         for e in extras:
@@ -283,8 +284,10 @@ class Report:
         os.makedirs(os.path.dirname(path), exist_ok=True)
         with open(path, "w") as f:
             json.dump(replay, f, indent=1, default=str)
-        if len(self.violations) < 20:
+        # at most 20 are printed, at most 4 of one kind (so that every kind of failure found is visible); all replays are written
+        if len(self.violations) < 20 and sum(1 for k, _, _ in self.violations if k == key) < 4:
             self.violations.append((key, path, what))
+        self.violation_total = getattr(self, "violation_total", 0) + 1
         return True
 
     def finish(self, rule, trusted_base, assumptions, explanation=None):
@@ -327,7 +330,7 @@ class Report:
         for key, text in self.known_hits.items():
             print("KNOWN-FINDING: property=%s %s" % (self.prop_id, text))
         for key, path, what in self.violations:
-            tail = " no-failing-input-found" if key == "proof" else ""
+            tail = " no-failing-input-found" if key == "proof" or "no-failing-input-found" in what else ""
             print("VIOLATION property=%s replay=%s%s" % (self.prop_id, path, tail))
             print("  (%s) %s" % (key, what))
         print("%s %s: %d cases, %d non-trivial, %d violations, proof %s, %.1fs" % (
